@@ -109,8 +109,12 @@ BENIGN = [
 # forced write from inside the read phase bypasses pyCraft's deliberate
 # hold-back of write errors until the server's disconnect packet has been
 # read, so a kick (keep-alive, disconnect, close) is reported as an error.
-# That is seeded change C11c, and C11 is right to object.
-NOT_FOR = {'keepalive-answer-forced': {'C11'}}
+# That is seeded change C11c, and C11 is right to object.  It also writes
+# the answer to a keep-alive that is followed by protocol 47's play-state Set
+# Compression in the OLD framing, which the server no longer accepts by then
+# (a race inherent in that protocol, which pyCraft's queued answer avoids):
+# C12's play-switch scenario sees a frame it cannot place.
+NOT_FOR = {'keepalive-answer-forced': {'C11', 'C12'}}
 
 
 def apply(root, edits):
